@@ -11,6 +11,7 @@ EXPLANATION = (
     "cycle of the pausing code's dispatch loop contains the command read; the command reader's retry loop reads a line "
     "per iteration; end of input maps to quit, which detaches the debugger. R4 is the panic ledger of these functions "
     "(see the PANIC engine; reported under this property when it concerns the stepping arms)."
+    ' R2 also: no None (no action yet) return of the dispatcher in front of the command read. R5: a loop that pulls from an iterator must observe its exhaustion (a next() result only compared with Some(x) is reported).'
 )
 NOT_DECIDED = "termination of the debugged program itself; the constant in 'bounded by a constant times ...'"
 
